@@ -169,7 +169,9 @@ public:
 
     bool is_finished(int id) { IgnoreGuard ig; return threads[id]->state == SimThread::FINISHED; }
     // wait for a spawned thread to finish (always completes: aborted threads unwind and finish)
-    void join(int id) {
+    // recycle: the finished thread returns to the pool at once, so a later spawn of the same run reuses the OS thread (and its
+    // thread_local storage) and the simulator thread id - a worker that executes one task after another
+    void join(int id, bool recycle = false) {
         JoinArg a { this, id };
         { IgnoreGuard ig; threads[cur]->joining = id; }
         while (!wait_until(&Sched::join_cond, &a)) {   // aborted: let the others unwind, never leave early
@@ -179,6 +181,7 @@ public:
         }
         SimThread *t; { IgnoreGuard ig; threads[cur]->joining = -1; t = threads[id]; }
         SIM_TSAN_ACQUIRE(&t->done_token);
+        if (recycle) { IgnoreGuard ig; if (t->id && t->state == SimThread::FINISHED && !aborting) t->state = SimThread::IDLE; }
     }
     bool thread_threw(int id) { IgnoreGuard ig; return threads[id]->threw; }
 
